@@ -8,7 +8,7 @@ RULE = ("case = propagator-level model + `min <view>` / `max <view>` (decision v
         "views); the iterating sequence must equal the model's, be strictly improving, consist of solutions, and end at the brute-force "
         "optimum; Ok iff satisfiable. Root-LP step off (hook H5); a second family runs with the LP step ON and is judged by the same oracle (known finding D10)")
 def lp_on(tier, rng):
-    return [c + " ; lp" for c in ec.gen_models(ec.entry_opt, 1500, 40000)(tier, rng)]
+    return [c + " ; lp" for c in ec.gen_models(ec.entry_opt, 1500, 300000)(tier, rng)]
 def split_lp(model_line):
     from ..core import default_split
     m, s, cls = default_split(model_line)
@@ -45,7 +45,7 @@ def corr_lp(case, impl, mpart):
 def judge_lp(case, impl, spec):
     return plevel.judge_solve(case, impl[:-5] if impl.endswith(" lp=1") else impl, spec)
 FAMILIES = [
-    Family("opt_random", "solve", ec.gen_models(ec.entry_opt, 3000, 80000), nontrivial=ec.nontrivial_solve, prop_judge=plevel.judge_solve),
+    Family("opt_random", "solve", ec.gen_models(ec.entry_opt, 3000, 600000), nontrivial=ec.nontrivial_solve, prop_judge=plevel.judge_solve),
     Family("opt_structured", "solve", lambda tier, rng: [c for c in ec.structured(tier, rng) if " max " in c or " min " in c], nontrivial=ec.nontrivial_solve, prop_judge=plevel.judge_solve),
     Family("opt_lp_on", "solve", lp_on, split=split_lp, nontrivial=ec.nontrivial_solve, prop_judge=judge_lp),
 ]
